@@ -354,5 +354,85 @@ theorem sgnOf_none (c : List Int) (h : keyOf c = none) : sgnOf c = 0 := by
   | some p => simp [hl] at h
 
 
+/-! ### levels: the number of entries ranked strictly below a key is a strictly monotone, injective level function -/
+
+theorem filter_length_lt {α} (p q : α → Bool) : ∀ l : List α, (∀ x, p x = true → q x = true) →
+    (∃ a ∈ l, q a = true ∧ p a = false) → (l.filter p).length < (l.filter q).length
+  | [], _, h => by obtain ⟨a, ha, _⟩ := h; simp at ha
+  | x :: r, hpq, h => by
+      have hle : (r.filter p).length ≤ (r.filter q).length := by
+        clear h
+        induction r with
+        | nil => simp
+        | cons y ys ih =>
+            simp only [List.filter_cons]
+            cases hp : p y <;> cases hq : q y <;> simp <;> try omega
+            have := hpq y hp; rw [hq] at this; cases this
+      obtain ⟨a, ha, hqa, hpa⟩ := h
+      simp only [List.filter_cons]
+      rcases List.mem_cons.1 ha with rfl | ha'
+      · simp [hqa, hpa]; omega
+      · have ih := filter_length_lt p q r hpq ⟨a, ha', hqa, hpa⟩
+        cases hp : p x <;> cases hq : q x <;> simp <;> try omega
+        have := hpq x hp; rw [hq] at this; cases this
+
+theorem levOf_lt (ks : List Key) (k' k : Key) (hk' : k' ∈ ks) (h : Key.lt k' k) : levOf ks k' < levOf ks k := by
+  unfold levOf
+  apply filter_length_lt
+  · intro x hx
+    simp only [decide_eq_true_eq] at hx ⊢
+    unfold Key.lt at *; omega
+  · exact ⟨k', hk', by simpa using h, by simpa using Key.not_lt_self k'⟩
+
+theorem key_trichotomy (a b : Key) : Key.lt a b ∨ a = b ∨ Key.lt b a := by
+  by_cases h1 : a.row = b.row
+  · by_cases h2 : a.mag = b.mag
+    · exact Or.inr (Or.inl (Key.ext' h1 h2))
+    · unfold Key.lt; omega
+  · unfold Key.lt; omega
+
+theorem levOf_lt_iff (ks : List Key) (k' k : Key) (hk' : k' ∈ ks) (hk : k ∈ ks) :
+    levOf ks k' < levOf ks k ↔ Key.lt k' k := by
+  constructor
+  · intro h
+    rcases key_trichotomy k' k with h1 | h1 | h1
+    · exact h1
+    · subst h1; omega
+    · have := levOf_lt ks k k' hk h1; omega
+  · exact levOf_lt ks k' k hk'
+
+theorem levOf_inj (ks : List Key) (k' k : Key) (hk' : k' ∈ ks) (hk : k ∈ ks) (h : levOf ks k' = levOf ks k) : k' = k := by
+  rcases key_trichotomy k' k with h1 | h1 | h1
+  · have := levOf_lt ks k' k hk' h1; omega
+  · exact h1
+  · have := levOf_lt ks k k' hk h1; omega
+
+
+/-! ### distinct keys and dense ranks -/
+
+theorem mem_dedupK : ∀ (l : List Key) (k : Key), k ∈ dedupK l ↔ k ∈ l
+  | [], k => by simp [dedupK]
+  | x :: r, k => by
+      simp only [dedupK]
+      by_cases h : r.contains x = true
+      · simp only [h, if_true, mem_dedupK r k, List.mem_cons]
+        constructor
+        · exact Or.inr
+        · rintro (rfl | h')
+          · simpa using h
+          · exact h'
+      · simp only [h, if_false, List.mem_cons, mem_dedupK r k, Bool.false_eq_true]
+
+theorem nodup_dedupK : ∀ l : List Key, (dedupK l).Nodup
+  | [] => by simp [dedupK]
+  | x :: r => by
+      simp only [dedupK]
+      by_cases h : r.contains x = true
+      · simp only [h, if_true]; exact nodup_dedupK r
+      · simp only [h, if_false, Bool.false_eq_true]
+        refine List.nodup_cons.2 ⟨?_, nodup_dedupK r⟩
+        intro hx
+        exact h (by simpa using (mem_dedupK r x).1 hx)
+
 end Prio
 end Puan
